@@ -15,6 +15,7 @@ class C04(SimCheck):
         "SequenceReset-GapFill, SequenceReset-Reset) numbered below / at / one above / far above the "
         "receiver's expectation, with or without PossDupFlag, while on_message may be suspended; every "
         "reaction (callbacks, frames written, live inbound counter) is compared frame by frame with a "
+        "1 run in 5 has a closing window: the application logs out under back-pressure held to the end of the fault phase, its disconnect() stays in drain() while the counterparty keeps sending (never two requests for one gap); "
         "15-line reference receiver; non-trivial = >= 3 chooser actions; distinct = distinct digest of "
         "the (event kind, actor) sequence"
     )
